@@ -252,7 +252,9 @@ func c11Compare(t *c11V, orig, got cue.Value, path string) string {
 			// CUE itself NFC-normalises string labels when compiling (internal/core/compile/
 			// label.go); the exact bytes of the key are compared on the decoder's syntax tree
 			// (c11ASTKeys), the compiled value modulo that normalisation.
-			if k := gi.Selector().Unquoted(); k != norm.NFC.String(t.keys[i]) {
+			// (a label that is a valid identifier is NOT normalised: `Eʹ` with U+0374 stays, the
+			// quoted form of the same key is normalised — a CUE matter, not a YAML one; both accepted)
+			if k := gi.Selector().Unquoted(); k != norm.NFC.String(t.keys[i]) && k != t.keys[i] {
 				return fmt.Sprintf("%s: key %d: want %q, got %q", path, i, t.keys[i], k)
 			}
 			if d := c11Compare(e, oi.Value(), gi.Value(), fmt.Sprintf("%s.%q", path, t.keys[i])); d != "" {
@@ -317,7 +319,7 @@ func c11ASTKeys(t *c11V, n ast.Node, path string, exact bool) string {
 				// been NFC-normalised by the CUE compiler
 				want = norm.NFC.String(want)
 			}
-			if err != nil || name != want {
+			if err != nil || (name != want && (exact || name != t.keys[i])) {
 				return fmt.Sprintf("%s: key %d in the decoder's syntax tree: want %q, got %q", path, i, t.keys[i], name)
 			}
 			if d := c11ASTKeys(t.elems[i], f.Value, fmt.Sprintf("%s.%q", path, t.keys[i]), exact); d != "" {
